@@ -615,6 +615,15 @@ BUILDUPS = [
     ("for_item", ["for i in y:", "    v = i"]),
     ("for_target", ["for v in y:", "    pass"]),
     ("for_else", ["for i in y:", "    pass", "else:", "    v = 'a'"]),
+    ("for_else_call", ["v = 'lit'", "for i in y:", "    pass", "else:", "    v = foo()"]),
+    ("for_else_format", ["v = 'lit'", "for i in y:", "    w = 'x'", "else:", "    v = '{}'.format(req.GET['q'])"]),
+    ("async_for_else_call", ["v = 'lit'", "async for i in y:", "    pass", "else:", "    v = foo()"]),
+    ("while_else_call", ["v = 'lit'", "while c:", "    pass", "else:", "    v = foo()"]),
+    ("for_tuple_target", ["v = foo()", "for k, g in y:", "    pass"]),
+    ("for_tuple_target_lit", ["v = 'lit'", "for k, v in y:", "    pass"]),
+    ("for_attr_target", ["v = foo()", "for o.a in y:", "    pass"]),
+    ("for_subscript_target", ["v = 'lit'", "for o[0] in y:", "    pass"]),
+    ("for_starred_target", ["v = foo()", "for k, *g in y:", "    pass"]),
     ("while_lit", ["while c:", "    v = 'a'", "else:", "    v = 'b'"]),
     ("while_aug", ["v = 'a'", "while c:", "    v += 'b'"]),
     ("try_all_lit", ["try:", "    v = 'a'", "except E:", "    v = 'b'", "else:", "    v = 'c'", "finally:", "    v = 'd'"]),
